@@ -97,6 +97,8 @@ class Obj:
         fb = object.__getattribute__(self, '__dict__').get('_fallback')
         if fb is not None and not name.startswith('__'):
             v = fb(self, name)
+            if type(v).__name__ == '_PropertyFB':
+                return v.getter()              # a property of the real class: evaluated on every read
             if type(v).__name__ == '_FieldDefault':
                 f[name] = v.value              # an undeclared instance field: the real constructor's literal default
                 return v.value
